@@ -84,7 +84,9 @@ class Lazy(Machine):
                        "read_folder_backed", "caller_list_mutated_after_use", "fancy_one_shot_iterable", "partial_iteration",
                        "video_with_large_frames", "equal_but_different_plain_values",
                        "two_overlapping_iterations_of_one_list", "relative_glob_then_working_directory_changes",
-                       "index_like_object", "augmented_add_after_adding_nothing", "longer_clip_with_fractional_frame_rate")
+                       "index_like_object", "augmented_add_after_adding_nothing", "longer_clip_with_fractional_frame_rate",
+                       "per_element_map_from_a_dict_view", "per_element_map_from_an_object_array",
+                       "only_a_slice_of_the_imported_video_is_kept")
 
     @classmethod
     def swarm(cls, rng, tier):
@@ -557,8 +559,18 @@ class Lazy(Machine):
     def _op_map_list(self, op, ll, model):
         fids = [(op["f"] + j) % N_FUNCS for j in range(len(model))]
         flist = [self.funcs[f] for f in fids]
-        self.caller_lists.append(flist)
-        new = self._nonreading("map_list", lambda: ll.map(flist))
+        form = (op["f"] // N_FUNCS + len(model)) % 4
+        if form == 2 and flist:
+            arg = dict(enumerate(flist)).values()       # one callable per element, in a sized iterable that is no Sequence
+            self.ctx.probe("per_element_map_from_a_dict_view")
+        elif form == 3 and flist:
+            arg = np.empty(len(flist), dtype=object)
+            arg[:] = flist
+            self.ctx.probe("per_element_map_from_an_object_array")
+        else:
+            arg = flist
+            self.caller_lists.append(flist)
+        new = self._nonreading("map_list", lambda: ll.map(arg))
         if new is not None:
             self.ctx.probe("per_element_map")
             m = [("map", f, e) for f, e in zip(fids, model)]
@@ -878,6 +890,15 @@ class Lazy(Machine):
         via = op["via"] % 3
         normalize = bool(op["norm"] % 2)
         exact = op["exact"] % 4 != 0
+        if self.cfg["kind"] == "video_faulty" and op["trunc"] % 3 == 1 and n >= 1:
+            # ffprobe cannot be started this once (too many open files): the import may fail; the next attempt, with
+            # nothing wrong any more, is an import like any other
+            self.ff.fail_next_probe = True
+            try:
+                mio.import_video(path, landmark_resolver=None, normalize=normalize, exact_frame_count=exact)
+            except Exception:
+                ctx.probe("import_failed_when_ffprobe_could_not_start")
+            self.ff.fail_next_probe = False
         mark = self._seam_mark()
         try:
             if via == 0:
@@ -902,6 +923,17 @@ class Lazy(Machine):
         ev, fs, ff = self._seam_since(mark)
         bad = [f for f in ff if f[0] == "pipe_read" and f[2] > 0] + [f for f in fs if f[0] == "open"]
         ctx.require(not bad, "lazy", "import_video_read_frames_or_landmarks", lambda: repr(bad[:3]))
+        if op["lm"] & 64 and n >= 1:
+            # the program keeps only a part of the video (here: all of it, as a slice) and lets go of the list that the
+            # importer returned
+            try:
+                part = ll[0:n]
+            except Exception as e:
+                ctx.fail("faithful", "op_raised_slice", repr(e))
+                return
+            del ll
+            ll = part
+            ctx.probe("only_a_slice_of_the_imported_video_is_kept")
         if not exact:
             # n_frames estimated from duration*fps by menpo; our spec is exact so they agree
             pass
